@@ -296,7 +296,7 @@ type faultScenario struct {
 }
 
 func checkC19(c *ctx) {
-	c.Rule = "fault enumeration through the stand-in engine: for each build and merge scenario (exact index; >= 1000 vectors so that Train / SetDirectMap occur; several vector fields; several input segments) the fault-free run records how often each engine operation is called; then the n-th call of each operation (IndexFactory, SetDirectMap, Train, AddWithIDs, WriteIndexIntoBuffer, ReadIndexFromBuffer, ReconstructBatch) is made to fail, for EVERY n; the operation must return an error, a failed merge must leave no file, and the number of live native indexes must return to its value before the operation; outcome compared with the extracted model of the build / merge engine-call program (VecFault.v); non-trivial = a fault in a call other than the first"
+	c.Rule = "fault enumeration through the stand-in engine: for each build and merge scenario (exact index; >= 1000 vectors so that Train / SetDirectMap occur; several vector fields; several input segments; a single contributing segment; fully deleted segments first / around the contributor) the fault-free run records how often each engine operation is called; then the n-th call of each operation (IndexFactory, SetDirectMap, Train, AddWithIDs, WriteIndexIntoBuffer, ReadIndexFromBuffer, ReconstructBatch) is made to fail, for EVERY n; the operation must return an error, a failed merge must leave no file, and the number of live native indexes must return to its value before the operation; outcome compared with the extracted model of the build / merge engine-call program (VecFault.v); non-trivial = a fault in a call other than the first"
 	c.Assumptions = append(c.Assumptions, "stand-in engine (see C14): its operations fail exactly where the injection says")
 	o := genVecOpts(c)
 	o.sim["vec"], o.sim["emb"] = "l2_norm", "dot_product"
@@ -330,6 +330,9 @@ func checkC19(c *ctx) {
 		{name: "build, >= 1000 vectors (clustered index: SetDirectMap, Train)", build: mkBatch(520, 2, 1, "c"), ivf: true, fields: sx.L(sx.Bool(true))},
 		{name: "merge of two segments, exact index", inputs: []zh.Batch{mkBatch(4, 1, 1, "d"), mkBatch(3, 2, 1, "e")}, drops: [][]uint64{{1}, nil}, fields: sx.L(sx.L(sx.N(2), sx.Bool(false)))},
 		{name: "merge of three segments, two fields", inputs: []zh.Batch{mkBatch(3, 1, 2, "f"), mkBatch(3, 1, 2, "g"), mkBatch(2, 1, 1, "h")}, drops: [][]uint64{nil, {0}, nil}, fields: sx.L(sx.L(sx.N(2), sx.Bool(false)), sx.L(sx.N(3), sx.Bool(false)))},
+		{name: "merge of one segment with a deletion (a single contributor)", inputs: []zh.Batch{mkBatch(4, 1, 1, "k")}, drops: [][]uint64{{1}}, fields: sx.L(sx.L(sx.N(1), sx.Bool(false)))},
+		{name: "merge of three segments, the first one fully deleted", inputs: []zh.Batch{mkBatch(3, 1, 1, "l"), mkBatch(3, 1, 1, "m"), mkBatch(2, 2, 1, "n")}, drops: [][]uint64{{0, 1, 2}, nil, {0}}, fields: sx.L(sx.L(sx.N(2), sx.Bool(false)))},
+		{name: "merge of three segments, only the middle one contributes vectors", inputs: []zh.Batch{mkBatch(2, 1, 1, "o"), mkBatch(3, 2, 1, "p"), mkBatch(2, 1, 1, "q")}, drops: [][]uint64{{0, 1}, nil, {0, 1}}, fields: sx.L(sx.L(sx.N(1), sx.Bool(false)))},
 		{name: "merge reaching >= 1000 vectors (clustered index)", inputs: []zh.Batch{mkBatch(300, 2, 1, "i"), mkBatch(260, 2, 1, "j")}, drops: [][]uint64{nil, nil}, ivf: true, fields: sx.L(sx.L(sx.N(2), sx.Bool(true)))},
 	}
 	if c.Quick {
